@@ -218,7 +218,7 @@ func c17(c *Ctx) {
 					return constant.MakeInt64(row.n), true
 				}
 				if call, ok := e.(*ast.CallExpr); ok && builtinName(info, call) == "len" {
-					if v, ok := objOf(info, call.Args[0]).(*types.Var); ok && v.Name() == "attrs" {
+					if sameVar(info, call.Args[0], addA.Obj.Type().(*types.Signature).Params().At(0)) { // the offered attributes (parameter)
 						return constant.MakeInt64(row.len), true
 					}
 				}
